@@ -838,8 +838,7 @@ func c01StockHookAndVariants(c *Ctx) {
 	// MakeGeneralBlockHook: the hook decides the continuation for EVERY block it sees — the next CID is whatever the
 	// caller's function says precedes this block (cid.Undef at the end of the chain included), or the sync is failed.
 	// Leaving the previous block's decision in place lets the next segment start at a block already reported.
-	if mk := c.Func(dagsyncPkg, "MakeGeneralBlockHook"); mk != nil && len(mk.SSA.AnonFuncs) == 1 {
-		hook := mk.SSA.AnonFuncs[0]
+	if mk, hook := c.Func(dagsyncPkg, "MakeGeneralBlockHook"), stockHook(c); mk != nil && hook != nil {
 		setNext := Invoke("SegmentSyncActions.SetNextSyncCid")
 		fail := Invoke("SegmentSyncActions.FailSync")
 		decided := func(in ssa.Instruction) bool {
@@ -1045,4 +1044,42 @@ func hookCounterInc(c *Ctx) *ssa.Store {
 		}
 	}
 	return nil
+}
+
+// stockHook: the function MakeGeneralBlockHook returns — a literal, a named
+// function, or a method value (then: the method behind the bound-method wrapper).
+func stockHook(c *Ctx) *ssa.Function {
+	mk := c.Func(dagsyncPkg, "MakeGeneralBlockHook")
+	if mk == nil {
+		return nil
+	}
+	var out *ssa.Function
+	for _, b := range mk.SSA.Blocks {
+		ret, ok := b.Instrs[len(b.Instrs)-1].(*ssa.Return)
+		if !ok || len(ret.Results) != 1 {
+			continue
+		}
+		var fn *ssa.Function
+		switch v := unwrapV(ret.Results[0]).(type) {
+		case *ssa.MakeClosure:
+			fn, _ = v.Fn.(*ssa.Function)
+		case *ssa.Function:
+			fn = v
+		}
+		if fn != nil && fn.Synthetic != "" {
+			// bound-method (or thunk) wrapper: the single call inside is the method
+			var callee *ssa.Function
+			instrs(fn, func(in ssa.Instruction) {
+				if ci, ok := in.(ssa.CallInstruction); ok && ci.Common().StaticCallee() != nil {
+					callee = ci.Common().StaticCallee()
+				}
+			})
+			fn = callee
+		}
+		if fn == nil || (out != nil && out != fn) {
+			return nil
+		}
+		out = fn
+	}
+	return out
 }
